@@ -229,6 +229,57 @@ def _expand_call(h, is_method, call, tag, tail=False):
     return pre + body, ret
 
 
+def exitstack_to_with(func):
+    """``with contextlib.ExitStack() as st: a = st.enter_context(X); …``
+    reads like ``with X as a, …:`` when the enter_context calls are the
+    leading statements of the block and the stack is not used otherwise
+    (in place, on a copy of the function)"""
+    def is_stack(e):
+        return isinstance(e, ast.Call) and (
+            call_name(e) or "").split(".")[-1] == "ExitStack" \
+            and not e.args and not e.keywords
+
+    class T(ast.NodeTransformer):
+        def visit_With(self, node):
+            self.generic_visit(node)
+            if len(node.items) != 1 or not is_stack(
+                    node.items[0].context_expr) or not isinstance(
+                    node.items[0].optional_vars, ast.Name):
+                return node
+            st = node.items[0].optional_vars.id
+            items, k = [], 0
+            for s_ in node.body:
+                v = s_.value if isinstance(s_, (ast.Assign, ast.Expr)) \
+                    else None
+                if isinstance(v, ast.Call) and isinstance(
+                        v.func, ast.Attribute) and v.func.attr == \
+                        "enter_context" and isinstance(
+                        v.func.value, ast.Name) and v.func.value.id == st \
+                        and len(v.args) == 1 and not v.keywords and (
+                        isinstance(s_, ast.Expr) or (
+                            len(s_.targets) == 1 and isinstance(
+                                s_.targets[0], ast.Name))):
+                    items.append(ast.withitem(
+                        context_expr=v.args[0],
+                        optional_vars=(ast.Name(id=s_.targets[0].id,
+                                                ctx=ast.Store())
+                                       if isinstance(s_, ast.Assign)
+                                       else None)))
+                    k += 1
+                else:
+                    break
+            rest = node.body[k:]
+            if not items or not rest or any(
+                    isinstance(n, ast.Name) and n.id == st
+                    for r in rest for n in ast.walk(r)):
+                return node
+            new = ast.With(items=items, body=rest)
+            return ast.copy_location(new, node)
+    T().visit(func)
+    ast.fix_missing_locations(func)
+    return func
+
+
 def _is_tail_helper(h):
     a = h.args
     if a.vararg or a.kwarg or a.kwonlyargs or a.posonlyargs:
